@@ -752,10 +752,28 @@ func (p *parser) parseInfixExpression() (*astNode, error) {
 		}
 	)
 
+	// a name directly followed by `(` is a call of that operator or keyword,
+	// also when the same name is registered as a variable or a constant
+	isCall := func() bool {
+		if p.idx+1 >= len(p.tokens) {
+			return false
+		}
+		t := p.tokens[p.idx]
+		if t.typ != ident || p.tokens[p.idx+1].typ != lParen {
+			return false
+		}
+		_, isOp := p.getOperator(t.val)
+		return isOp || p.isKeyword(t)
+	}
+
 	for p.hasNext() {
-		ast, err := p.buildLeafNode()
-		if err != nil {
-			return nil, err
+		var ast *astNode
+		if !isCall() {
+			leaf, err := p.buildLeafNode()
+			if err != nil {
+				return nil, err
+			}
+			ast = leaf
 		}
 		if ast != nil {
 			push(ast)
